@@ -530,7 +530,7 @@ ZERO_PROBES = [
     ("cq(0-length: use_memory(0) on an empty last chunk)",
      ["seq 1024 0 1 - - - bo,0,1,0 gm,0,1,2,0 am,0,3,10 pk,0,100"]),
     ("cq(0-length: to_tempfiles with a trailing empty chunk)",
-     ["seq 1024 0 1 - - - am,0,1,100 mt,1,2,0 ac,0 mt,0,3,10 pk,0,1000"]),
+     ["seq 1024 0 1 - - 100 am,0,1,10 ad,0,0,0,5 mt,1,2,0 ac,0 mt,0,4,10 pk,0,1000"]),
 ]
 
 
